@@ -210,6 +210,26 @@ theorem three_prime_tile (w : Word) (i a1 b2 k : Nat) (hi : i < w.length) (h1 : 
     (slice (window w i) (a1 + k) (b2 + k) ++ ((window w i).drop (b2 + k) ++ (window w i).take (a1 + k))) ~r w :=
   placeholder_target_isRotated w i (a1 + k) (b2 + k) hi (by omega) h2
 
+/-- **one fragment, two conventions**: on the same accepted window the 5' reading (leading overhang + body) and
+the 3' reading (body + trailing overhang) differ only in which of the two overhangs they carry — upstream overhang
+followed by the 3' target is the 5' target followed by the downstream overhang, both the stretch `text[a1, b2+k)`
+between the outermost cut positions -/
+theorem three_prime_same_fragment (text : Word) (a1 b2 k : Nat) (h1 : a1 + k ≤ b2) :
+    slice text a1 (a1 + k) ++ slice text (a1 + k) (b2 + k) = slice text a1 b2 ++ slice text b2 (b2 + k) := by
+  have e1 : slice text a1 (a1 + k) ++ slice text (a1 + k) (b2 + k) = slice text a1 (b2 + k) := by
+    unfold slice
+    have : b2 + k - a1 = (a1 + k - a1) + (b2 + k - (a1 + k)) := by omega
+    rw [this, List.take_add, List.drop_drop]
+    congr 3
+    omega
+  have e2 : slice text a1 b2 ++ slice text b2 (b2 + k) = slice text a1 (b2 + k) := by
+    unfold slice
+    have : b2 + k - a1 = (b2 - a1) + (b2 + k - b2) := by omega
+    rw [this, List.take_add, List.drop_drop]
+    congr 3
+    omega
+  rw [e1, e2]
+
 /-- the signature-typed structures over every single-cut 3'-overhang enzyme of `Bio.Restriction` with an
 unambiguous site are the same closed forms as for a 5' cutter with the same `(site, off, k)`, and are
 cut-aligned (kernel-checked on the regenerated table) -/
